@@ -111,6 +111,51 @@ def run_shard(spec, rec):
                 for tmpl in ("$[?@[%s] == 'a']", "$[?length(@[%s]) == 1]", "$[?@[%s] != 0]"):
                     want_idx = [0] if "!=" in tmpl else []   # nothing != 0 holds, so the child is selected
                     check(jp, rec, tmpl % sel, [doc], want_idx, {"what": "non-array-in-filter", "document": jsonable([doc])})
+    # index and slice selectors next to other selectors in one bracketed selection (each selector selects independently)
+    if spec["shard"] % 4 == 0:
+        for n in (0, 1, 3, 5):
+            doc = [[i] for i in range(n)]
+            for a_sel, a_idx in [("1", lambda n: [1] if n > 1 else []), ("-1", lambda n: [n - 1] if n else []), ("0:2", lambda n: list(range(min(2, n)))),
+                                 ("::-1", lambda n: list(range(n - 1, -1, -1))), ("1:", lambda n: list(range(1, n))), (":-1", lambda n: list(range(0, max(0, n - 1))))]:
+                for tmpl, extra in (("$[%s, 'a']", lambda n: []), ("$['a', %s]", lambda n: []), ("$[%s, *]", lambda n: list(range(n))), ("$[*, %s]", None), ("$[%s, %s]", "twice"),
+                                    ("$['k', %s, \"x\"]", lambda n: []), ("$[?@[0] > 100, %s]", lambda n: [])):
+                    if extra == "twice":
+                        text, want = tmpl % (a_sel, a_sel), a_idx(n) + a_idx(n)
+                    elif extra is None:
+                        text, want = tmpl % a_sel, list(range(n)) + a_idx(n)
+                    else:
+                        text, want = tmpl % a_sel, a_idx(n) + extra(n)
+                    rec.case(("multi", n, text), bool(want))
+                    rec.feat("multi-selector")
+                    check(jp, rec, text, doc, want, {"what": "slice", "length": n, "selection": text})
+    # one compiled query applied to arrays of different lengths one after the other (nothing worked out for one array
+    # may be reused for the next)
+    if spec["shard"] % 4 == 1:
+        for a, b, c in [(1, 4, None), (0, 3, None), (None, -1, None), (1, -1, None), (2, 5, 1), (0, 2, 2), (None, 4, None), (1, None, None), (-2, None, None), (None, None, -1), (3, 0, -1),
+                        (0, 1, None), (1, 3, None), (2, 4, None), (None, 2, None), (-3, -1, None)]:
+            st = G.Style(R, feat=None)
+            text = "$[" + render_slice(st, a, b, c) + "]"
+            o = mon.observe(jp.compile, text)
+            if o[0] != "ok":
+                continue
+            q = o[1]
+            for trial in range(6):
+                lengths = [R.choice([0, 1, 2, 3, 4, 5, 6, 8, 12]) for _ in range(6)]
+                if trial == 0 and b is not None and b > 0:
+                    lengths = [b - 1, b + 3, b, b + 1, 0, b + 5]
+                for n in lengths:
+                    n = max(0, n)
+                    doc = [[i] for i in range(n)]
+                    want = sem.slice_indices_capped(n, a, b, c)
+                    o2 = mon.observe(lambda: list(q.finditer(doc)))
+                    rec.monitor("M-find")
+                    rec.case(("compiled-reuse", a, b, c, trial, n), True)
+                    rec.feat("compiled-query-reused-on-other-length")
+                    got = [n_.location for n_ in o2[1]] if o2[0] == "ok" else mon.describe_outcome(o2)
+                    if got != [(i,) for i in want]:
+                        rec.violation("slice-after-other-lengths", {"what": "slice", "query": text, "lengths_applied_in_order": lengths, "length": n, "expected_locations": [[i] for i in want],
+                                                                   "observed_locations": jsonable(got)})
+                        break
     # large arrays: the same arithmetic on thousands of elements (power-of-two lengths and their neighbours)
     big = [2047, 2048, 2049, 4096, 5000, 10007]
     for bi, n in enumerate(big):
